@@ -40,7 +40,7 @@ func init() {
 				return 400_000
 			}, Run: c04Program,
 				Min: map[string]int64{"paths": 100000, "flat": 10000, "gradient_linear": 1000, "gradient_radial": 1000, "skip_transparent": 1000, "skip_non-premultiplied": 1000, "skip_lod": 1000,
-					"skip_stop-not-premultiplied": 100, "skip_stop-offset-out-of-range": 100, "skip_stop-offsets-not-increasing": 100, "paths_after_skipped_path": 1000, "wrapped_stop_registers": 100, "selector_wraps": 1000}},
+					"skip_stop-not-premultiplied": 100, "skip_stop-offset-out-of-range": 100, "skip_stop-offsets-not-increasing": 100, "paths_after_skipped_path": 1000, "wrapped_stop_registers": 100, "selector_wraps": 1000, "rectangle_set_again_after_reset": 10000}},
 			{Name: "via-decoder", N: func(t string) uint64 {
 				if t == "thorough" {
 					return 10_000_000
@@ -224,6 +224,18 @@ func c04Program(c *run.Ctx, idx uint64) {
 	}
 	if !c.Guard("reset", nil, func() { z.Reset(cfg.vb, cfg.pal) }) {
 		return
+	}
+	switch r.Intn(4) {
+	case 0:
+		// the rectangle (and with it the raster height of the LOD test) is
+		// set again after Reset, through another rasterizer object
+		z.SetRasterizer(&rec.Raster{}, image.Rect(0, 0, cfg.rect.Dx()+7, cfg.rect.Dy()+13))
+		z.SetRasterizer(rz, cfg.rect)
+		c.Count("rectangle_set_again_after_reset", 1)
+	case 1:
+		// the rasterizer object was used for something of another size before
+		rz.Reset(cfg.rect.Dx()+40, cfg.rect.Dy()+40)
+		rz.ResetLog()
 	}
 	vm := ref.NewVM(cfg.vb, cfg.pal)
 	c04Feed(c, &z, rz, vm, cfg, ops, "direct")
